@@ -219,15 +219,13 @@ class MQTTClient(MQTTTransport):
         if not self._client or not self._incoming_task:
             raise RuntimeError("Client needs to connect before disconnecting.")
 
-        self._incoming_task.cancel()
-        try:
-            await self._incoming_task
-        except asyncio.CancelledError:
-            # The receive task was cancelled by us. Only propagate the
-            # cancellation if this task itself is being cancelled.
-            current_task = asyncio.current_task()
-            if current_task is not None and current_task.cancelling():
-                raise
+        incoming_task = self._incoming_task
+        incoming_task.cancel()
+        # Wait without re-raising the cancellation of the receive task. A
+        # cancellation of this task while waiting still propagates.
+        await asyncio.wait([incoming_task])
+        if not incoming_task.cancelled():
+            incoming_task.result()
         self._incoming_task = None
         with contextlib.suppress(MqttError):
             await self._client.__aexit__(None, None, None)
